@@ -121,7 +121,15 @@ def kpatched(mods, kfs):
 
 
 def run_lemma(kr, fn, max_paths=200):
-    results, exhaustive, stats = core.explore(fn, max_paths=max_paths, timeout_ms=20000)
+    def guarded(ctx):
+        n0 = len(kr.failed)
+        r = fn(ctx)
+        if ctx.flags and len(kr.failed) > n0:
+            # what happens on a path the engine could not follow faithfully is not a verdict
+            kr.inconclusive.extend('on a flagged path: ' + f[:120] for f in kr.failed[n0:])
+            del kr.failed[n0:]
+        return r
+    results, exhaustive, stats = core.explore(guarded, max_paths=max_paths, timeout_ms=20000)
     kr.paths += stats['paths']
     kr.queries += stats['queries']
     kr.solver_s += stats['solver_s']
@@ -865,6 +873,123 @@ def k_pestle(rep):
                     idx = fresh_index(ctx, 'q%d' % id(v), tuple(fab.n))
                     prove(ctx, kr, '%s: element address' % what, v.at(idx) == fab.elem_addr(idx, comp.t))
             run_lemma(kr, path)
+    rep.kernel_lemmas.append(kr.as_dict())
+    merge(rep, kr)
+
+
+# ---------------------------------------------------------------------------------------------------------------
+# K-chunk: Mandoline.write_cell_data_at_level (file splitting above 1 MB, FAB headers, FabOnDisk table)
+
+@lemma('k_chunk')
+def k_chunk(rep):
+    mods = common.mods()
+    mm = mods['amr_kitchen.mandoline.mandoline']
+    from symx import npfacade
+    kr = KResult('K-chunk', ['mandoline.Mandoline.write_cell_data_at_level'],
+                 {'boxes in the plane': '1, 2, 3, 5, 11, 12 (concrete count), extents along x symbolic 1..4096, along y 1 / 512 / 4096', 'fields': '1..2', 'factor': '1, 2',
+                  'written size': 'symbolic, up to 40 MB (1..41 cell files: the file count is realised)', 'claim': 'every box exactly once in the FabOnDisk table, its (file, offset) is where '
+                  'its header was written, its region holds its sub-sampled view'})
+    configs = [(1, 1, 1, 512), (2, 2, 1, 4096), (3, 1, 2, 512), (5, 1, 1, 1), (11, 1, 1, 512), (12, 2, 2, 4096)]
+    if common.TIER == 'quick':
+        configs = [(1, 1, 1, 512), (3, 1, 2, 512), (11, 1, 1, 512)]
+    for nbox, nfid, factor, syv, canary in [c + (False,) for c in configs] + [(3, 1, 2, 512, True)]:
+        def path(ctx, nbox=nbox, nfid=nfid, factor=factor, syv=syv, canary=canary):
+            # boxes side by side along x in the level's index space; x extents symbolic, y extent concrete (keeps the
+            # written size linear in the symbols, so the file-count arithmetic is decided by linear integer arithmetic)
+            sx = [core.integer('sx%d' % b) for b in range(nbox)]
+            sy = core.SymInt(z3.IntVal(syv))
+            for x in sx:
+                ctx.assume(x.t >= 1)
+                ctx.assume(x.t <= 4096)
+            total = z3.IntVal(0)
+            for x in sx:
+                total = total + x.t * sy.t * nfid * 8
+            ctx.assume(total <= 40 * 10 ** 6)
+            los = []
+            pos = z3.IntVal(0)
+            for b in range(nbox):
+                los.append(pos)
+                pos = pos + sx[b].t
+            cells = {'indexes': [[npfacade.objarr([S(los[b]), 0, 7]), npfacade.objarr([S(los[b] + sx[b].t - 1), S(sy.t - 1), 7])] for b in range(nbox)]}
+            kf = KFile('lvdata', [])
+            gx, gy = pos * factor, sy.t * factor
+            lvdata = [LV(kf, (S(gx), S(gy)), lambda idx, f=f: kf.gbase + f * 2 ** 50 + 8 * (idx[0] + gx * idx[1]), 'level-array') for f in range(nfid)]
+
+            class Stub:
+                pass
+            st = Stub()
+            st.cells = [cells]
+            st.cx, st.cy, st.limit_level, st.nfidxs = 0, 1, {1: 0, 2: 1}[factor], nfid
+            kfs = KFS()
+            with kpatched(mods, kfs), common.quiet():
+                try:
+                    mm.Mandoline.write_cell_data_at_level(st, 'out', 0, lvdata, list(range(nbox)))
+                except Exception as e:
+                    kr.obligations += 1
+                    kr.failed.append('K-chunk n=%d: raised %s: %s; %s' % (nbox, type(e).__name__, str(e)[:80], short_model(ctx.model())))
+                    return
+            what = 'K-chunk n=%d fields=%d factor=%d' % (nbox, nfid, factor)
+            text = kfs.texts.get('out/Level_0/Cell_H')
+            kr.obligations += 1
+            if text is None:
+                kr.failed.append('%s: no Cell_H written' % what)
+                return
+            lines = text.s.split('\n')
+            fab_lines = [l.split() for l in lines if l.startswith('FabOnDisk:')]
+            if len(fab_lines) != nbox:
+                kr.failed.append('%s: %d FabOnDisk lines for %d boxes; %s' % (what, len(fab_lines), nbox, short_model(ctx.model())))
+                return
+            kr.discharged += 1
+            # the boxes as written, file by file
+            written = []
+            for fname in sorted(k for k in kfs.files if k.startswith('out/Level_0/Cell_D_')):
+                w = kfs.files[fname].writes
+                if len(w) % 2:
+                    kr.obligations += 1
+                    kr.failed.append('%s: odd number of writes in %s' % (what, fname))
+                    return
+                for q in range(0, len(w), 2):
+                    written.append((fname.split('/')[-1], w[q], w[q + 1]))
+            kr.obligations += 1
+            if len(written) != nbox:
+                kr.failed.append('%s: %d boxes written for %d boxes in the plane; %s' % (what, len(written), nbox, short_model(ctx.model())))
+                return
+            kr.discharged += 1
+            for b in range(nbox):
+                fname, hdr, reg = written[b]
+                want_h = ('FAB ((8, (64 11 52 0 1 12 0 1023)),(8, (8 7 6 5 4 3 2 1)))((%s,%s) (%s,%s) (0,0)) %d\n'
+                          % (cells['indexes'][b][0][0], cells['indexes'][b][0][1], cells['indexes'][b][1][0], cells['indexes'][b][1][1], nfid)).encode()
+                kr.obligations += 1
+                if hdr[0] != 'hdr' or hdr[2] != want_h:
+                    kr.failed.append('%s: box %d header is %r' % (what, b, hdr[2][-50:] if hdr[0] == 'hdr' else hdr[0]))
+                    continue
+                kr.discharged += 1
+                kr.obligations += 1
+                if fab_lines[b][1] != fname:
+                    kr.failed.append('%s: box %d is listed in %s but written to %s' % (what, b, fab_lines[b][1], fname))
+                    continue
+                kr.discharged += 1
+                off = klv.kint(fab_lines[b][2])
+                prove(ctx, kr, '%s: recorded offset of box %d is where its header was written' % (what, b), I(off) == hdr[1])
+                if reg[0] != 'region' or len(reg[2].parts) != nfid:
+                    kr.obligations += 1
+                    kr.failed.append('%s: box %d data is not %d flattened views' % (what, b, nfid))
+                    continue
+                for f, part in enumerate(reg[2].parts):
+                    side_obligations(ctx, kr, part, what)
+                    if not shape_equal(ctx, kr, part.shape, (sx[b], sy), '%s box %d field %d' % (what, b, f)):
+                        continue
+                    idx = fresh_index(ctx, 'q%d_%d' % (b, f), (sx[b], sy))
+                    want = lvdata[f].at(((los[b] + idx[0]) * factor, idx[1] * factor))
+                    if canary and b == nbox - 1:
+                        n0 = len(kr.failed)
+                        ok = prove(ctx, kr, 'canary', part.at(idx) == want + 8)
+                        kr.canary = (kr.canary is not False) and (not ok)
+                        del kr.failed[n0:]
+                        kr.obligations -= 1
+                        continue
+                    prove(ctx, kr, '%s box %d field %d: element address' % (what, b, f), part.at(idx) == want)
+        run_lemma(kr, path, max_paths=400)
     rep.kernel_lemmas.append(kr.as_dict())
     merge(rep, kr)
 
